@@ -30,7 +30,9 @@ EXTENDS Naturals, Sequences, FiniteSets, TLC, Json
 Phases == {"clientPlay", "clientConfig", "backendPlay", "backendConfig"}
 Kinds == {"register", "unregister", "registered", "unregistered"}
 Actions == {"none", "allow", "deny"}
-ListShapes == {"empty", "one", "many", "invalid"}
+\* "same": one fixed channel list; the harness sends such a row twice in a row, so the second
+\* registration names only channels the player has registered before
+ListShapes == {"empty", "one", "many", "invalid", "same"}
 DataShapes == {"empty", "one", "big"}
 
 FromClient(p) == p \in {"clientPlay", "clientConfig"}
